@@ -28,6 +28,7 @@ def run_case(tape, tier):
     feat = c01.feat_for(tier)
     feat["real"] = False
     feat["kbint_sleep"] = False
+    feat["allow_empty"] = True
     prog = sched.gen_program(tape, feat)
     nnoise = tape.draw("nnoise", 4)
     noise = []
